@@ -79,6 +79,11 @@ class RaggedSys(System):
             x = payload.values('H', 1, at, dt)
             x = np.concatenate([x] * n).astype(dt)
             return x, x
+        if colour == 'ovlist':   # a Python sequence holding an integer that does not fit the dtype: np.asarray(item, dtype) refuses it
+            info = np.iinfo(dt)
+            row = np.full(at, 1, dtype='int64').tolist() if at else 1
+            big = np.full(at, int(info.max) + 45, dtype=object).tolist() if at else int(info.max) + 45
+            return [row, big], None
         if colour == 'badatom':
             return np.zeros((1,) + at[:-1] + ((at[-1] + 1,) if at else (3,)), dtype=dt), None
         if colour == 'badatom0':      # zero-length subarray of the wrong atom: holds no values, still incompatible
@@ -147,6 +152,7 @@ class RaggedSys(System):
         room = self.Nmax - n
         ops, disabled = [], 0
         grow = [(('append', 's1'), 1), (('append', 's2'), 1), (('append', 's0'), 1), (('append', 'sC'), 1),
+                (('iterappend', 'ctx2'), 2),
                 (('iterappend', 's1s0s2'), 3), (('iterappend', 'gen'), 2), (('iterappend', 'zeros'), 2)]
         if self.dtype.itemsize > 1:
             grow.append((('append', 'sE'), 1))
@@ -165,6 +171,8 @@ class RaggedSys(System):
             ops += [('reopen',)]
         else:
             ops += [('append', 'badatom'), ('append', 'badrank'), ('append', 'unconv'), ('append', 'badatom0'), ('append', 'badzero')]
+            if self.dtype.kind in 'iu' and self.dtype.itemsize < 8:
+                ops += [('append', 'ovlist')]
             ops += [('truncate', k) for k in TRUNC_KS]
             ops += [('mode', 'r'), ('mode', 'r+'), ('reopen',), ('truncpath', 1)]
         if 'meta' in self.features:
@@ -219,12 +227,17 @@ class RaggedSys(System):
             else:
                 spec = op[1]
                 names = {'s1s0s2': ['s1', 's0', 's2'], 'empty': [], 'gen': ['s1', 's2'], 'z1': ['s0', 's1'],
-                         'zeros': ['s0', 's0']}[spec]
+                         'zeros': ['s0', 's0'], 'ctx2': ['s1', 's2']}[spec]
                 its = [self.item(nm) for nm in names]
                 refs = [i[1] for i in its]
                 objs = [i[0] for i in its]
                 arg = (o for o in objs) if spec == 'gen' else objs
                 call = lambda: ra.iterappend(arg)
+                if spec == 'ctx2':           # two single appends while the arrays are held open by an enclosing context
+                    def call():
+                        with ra.open_arrays():
+                            ra.append(objs[0])
+                            ra.append(objs[1])
             total = sum(len(x) for x in m.subs) + sum(len(r) for r in refs if r is not None)
             if any(r is None for r in refs):
                 expect = 'raises'
